@@ -54,6 +54,19 @@ def tangent_box_line_degenerate(n1, n2):
     return False
 
 
+def on_axis_line_at_dyadic_break(n1, n2, missed):
+    """the same class one or more bisection levels down (a property of the INPUT and of its certified roots): one curve
+    lies on an axis-parallel line and the other reaches that line exactly at a dyadic break point k/2^m (m <= 8) of the
+    bisection, so that the boxes of the sub-curves meeting there are tangent along the line"""
+    for a, b, which in ((n1, n2, "s"), (n2, n1, "t")):
+        if any(all(v == row[0] for v in row) for row in b):
+            def dyadic(lo, hi):
+                return any((-((-lo * 2 ** m) // 1)) <= (hi * 2 ** m) // 1 for m in range(0, 9))
+            if all(dyadic(r.s_lo, r.s_hi) if which == "s" else dyadic(r.t_lo, r.t_hi) for r in missed):
+                return True
+    return False
+
+
 def well_conditioned(iso):
     """None if the pair is in the domain of the property, else the reason it is not"""
     if iso.status != "certified":
@@ -202,6 +215,8 @@ def main():
         if missed:
             if tangent_box_line_degenerate(n1, n2):
                 k = "tangent-bbox:curve-on-axis-parallel-line"
+            elif on_axis_line_at_dyadic_break(n1, n2, missed):
+                k = "tangent-bbox:curve-on-axis-parallel-line:dyadic-break-point"
             elif all((r.s_exact is None) != (r.t_exact is None) for r in missed):
                 # class of the certified root (a property of the input): an end point of one curve lying in the
                 # interior of the other curve
